@@ -244,6 +244,9 @@ def py_isinstance(ex, v, cls, st):
             r = h(v, cls, st)
             if r is not NotImplemented:
                 return r
+        if isinstance(v, Opaque) and isinstance(v.data, dict) and 'classes' in v.data:
+            import inspect as _i
+            return _i.isclass(cls) and any(issubclass(k, cls) for k in v.data['classes'])
         if isinstance(v, (Func, Opaque)):
             return False
         raise OutsideSubset('isinstance(%r, %r)' % (v, cls))
@@ -566,7 +569,7 @@ def _closure_env(f, st):
 
 
 def _restore_env(caller_env, callee_env, f):
-    return caller_env
+    return dict(caller_env)      # one copy per resulting path (paths must not share an environment)
 
 
 def _const_default(ex, d, f):
